@@ -138,6 +138,10 @@ def is_empty(c):
         if c and c[0] in ("list", "set", "coll", "dict") and len(c) == 2:
             return all(is_empty(v) for v in c[1]) if c[0] != "dict" else all(is_empty(v) for _, v in c[1])
         if c and c[0] == "rec":
+            conts = [v for _, v in c[1] if isinstance(v, tuple)]
+            scal = [v for _, v in c[1] if not isinstance(v, tuple)]
+            if conts and all(is_empty(v) for v in conts) and all(v in (0, 1, -1, None, "") for v in scal):
+                return True       # containers all empty and scalars at their defaults (e.g. an empty BitVectorManager)
             return all(is_empty(v) for _, v in c[1])
         if c and c[0] == "graph":
             return not c[1] and not c[2]
